@@ -71,6 +71,7 @@ type frame struct {
 	panic            interface{}
 	phitemps         []value // temporaries for parallel phi assignment
 	isInit           bool
+	curInstr         ssa.Instruction
 }
 
 func (fr *frame) get(key ssa.Value) value {
@@ -747,6 +748,13 @@ func runFrame(fr *frame) {
 				buf = buf[:runtime.Stack(buf, false)]
 				panic(engineErr(fmt.Sprintf("unsupported value in %s: %v\n%s", fr.fn, ta, buf)))
 			}
+			if ee, ok := r.(engineError); ok && !strings.Contains(ee.msg, "\n  in ") {
+				pos := ""
+				if fr.curInstr != nil {
+					pos = fmt.Sprintf(" [%s] at %s", fr.curInstr, fr.fn.Prog.Fset.Position(fr.curInstr.Pos()))
+				}
+				panic(engineErr(ee.msg + "\n  in " + fr.fn.String() + pos))
+			}
 			panic(r)
 		}
 		if fr.i.initDepth > 0 && fr.isInit {
@@ -784,6 +792,7 @@ func runFrame(fr *frame) {
 					fmt.Fprintln(os.Stderr, "\t", instr)
 				}
 			}
+			fr.curInstr = instr
 			if visitInstr(fr, instr) == kReturn {
 				return
 			}
